@@ -99,3 +99,14 @@ MUTANTS += [
      "        satisfaction = is_satisfied_by(actual_relativity, self._accepted)\n        if not satisfaction:",
      'PathAndRelativityRestriction.is_satisfied_by : ensures['),
 ]
+
+MUTANTS += [
+    ('l8-c08-def-container-built-with-another-type', 'C08', _DEF_PARSER,
+     "                                                   value_type,\n",
+     "                                                   ValueType.STRING,\n",
+     'EmbryoParser.parse : ensures[the instruction defines NAME as a container of the parsed value'),
+    ('l8-c08-def-container-under-another-name', 'C08', _DEF_PARSER,
+     "        sym_def = SymbolDefinition(symbol_name,\n",
+     "        sym_def = SymbolDefinition(symbol_name + '_',\n",
+     'EmbryoParser.parse : ensures[the instruction defines NAME as a container of the parsed value'),
+]
